@@ -89,6 +89,11 @@ CHECKS = {
    note=POOL_NOTE + "'None of the task's processes keeps running' (OS process groups) and log completeness with large outputs are checked with real processes only (2 quick / 12 thorough scenarios). eventually_final assumes >=1 core and dependencies on earlier task ids.",
    technique="Lean 4 proof (inductive invariant over an LTS) + trace validation + real-process runs",
    design="§6-C11..C13, App. A"),
+ "C14": dict(
+   text="Theorems for ALL request sequences on the server's handler model (any number of connections, any interleaving, any number of tasks): a request that is not a well-formed enqueue or a cancel of a known task - garbage, wrong-shaped JSON, unknown/incomplete requests, cancel of an unknown id, a disconnect - leaves the task table untouched (bad_request_leaves_pool, unknown_cancel_leaves_pool, inert_requests_invisible); cancel and pool progress change only the addressed task (cancel_frame, advance_frame); the table only grows, every accepted task gets the id = number of earlier tasks, so ids strictly increase and are unique over the whole history (tasks_monotone, enqueue_id_is_fresh, ids_strictly_increase, tids_unique); get_task_states returns exactly the table and get_task_state the entry under its own id (states_reply_true, get_state_own); after any history a well-formed enqueue is still accepted (still_accepts). Tied to the code by running the REAL Server+Scheduler on a loopback socket: deterministic sessions compared reply-by-reply with the model, and chaos runs with concurrent adversary threads checked against the theorem statements (unique ids, true final states, marker files on disk, fresh client served).",
+   note="Modelled: Server.handle_connection as a function of the classified line; Scheduler.enqueue_task/cancel_task/get_task_state(s) on the state table. Not modelled: asyncio stream/transport internals (one handler coroutine per connection is assumed independent - validated by the runs), JSON parsing itself (lines are classified by the harness with the json module), the `shutdown` request. 'Runs every accepted task to its final state' is the pool theorem eventually_final (C13) plus the chaos runs here.",
+   technique="Lean 4 proof (handler function + induction over request sequences) + live-server differential correspondence with protocol-level fault injection",
+   design="§6-C14"),
  "C01": dict(
    text="Theorems for ALL file snapshots, timestamp assignments (ties included), input/output lists and spec flags: should_run is false iff spec unchanged ∧ ≥1 output ∧ every output exists ∧ no input strictly newer than any output (shouldRun_false_iff, via max/min lemmas), true otherwise, total when inputs exist; the decision depends only on the SET of declared paths, hence not on container shape (shouldRun_set_irrelevant/_shape_irrelevant over the inductive Shape type); with no live/failed/cancelled job and complete dependencies the status is completed iff not stale (status_file_based). Tied to the code by the exhaustive single-target enumeration + random DAGs through the real should_run/schedule/FileSpecHashes and the make-semantics predicate evaluated on every observed status map.",
    note="File system is an in-memory snapshot object with CachedFilesystem's interface; one-stat-per-path consistency of the real CachedFilesystem is only exercised by CLI correspondences. sha1 modelled as equality of spec text.",
